@@ -113,7 +113,7 @@ def run_case(case):
 
 def cases(seed, tier):
     sch = Sched(seed)
-    n = 130 if tier == "quick" else 12000
+    n = 130 if tier == "quick" else 6000
     out = []
     for k in range(n):
         r = random.Random(sch.np_seed(f"c13.{k}"))
